@@ -610,10 +610,22 @@ fn plan_ds(o: &Opts, prop: &str, ds: vcore::ast::Ds) -> Vec<GroupSpec> {
                crate::count_excluded("KF-14 (key-free reads not generated)");
             }
          }
-         let prog = vcore::gen_ds::gen_byods(&mut r, &cfg, ds, ternary);
+         // every third program has a single-pattern profile; the profiles (arity x access pattern) are enumerated
+         let (nb, nt) = (vcore::gen_ds::N_PATS_BINARY, vcore::gen_ds::N_PATS_TERNARY);
+         let profile = if i % 3 == 2 { Some(((i / 3) as usize + o.seed as usize * 7) % (nb + nt)) } else { None };
+         let (ternary, prog) = match profile {
+            Some(j) => {
+               let t = j >= nb;
+               (t, vcore::gen_ds::gen_byods_profile(&mut r, &cfg, ds, t, Some(if t { j - nb } else { j })))
+            },
+            None => (ternary, vcore::gen_ds::gen_byods(&mut r, &cfg, ds, ternary)),
+         };
          let base = format!("{prop}-s{}-{}", o.seed, i);
          let mut m = meta(&base, "ser", Kind::Ascent, true);
          m.labels = vec![format!("arity={}", if ternary { 3 } else { 2 })];
+         if let Some(j) = profile {
+            m.labels.push(format!("single_pattern_profile={}", j));
+         }
          // every third program: another attribute in front of the relation's `#[ds(..)]`
          let mut opts0 = PrintOpts::plain(Kind::Ascent);
          opts0.doc_before_ds = i % 3 == 1;
